@@ -188,6 +188,21 @@ def multi_labelled(rng, n_mol):
     return out
 
 
+def two_label_alkanes(rng, n_mol, k=10):
+    """n-alkanes with all hydrogens and exactly two 13C labels at chosen chain positions (few labelled atoms, many index pairs)"""
+    out = []
+    pairs = [(i, j) for i in range(k) for j in range(i + 1, k)]
+    rng.shuffle(pairs)
+    for i, j in pairs[:n_mol]:
+        atoms = [("C", 13 if a in (i, j) else 0, 0, 0) for a in range(k)]
+        bonds = [(a, a + 1, 1) for a in range(k - 1)]
+        for a in range(k):
+            for _ in range(3 if a in (0, k - 1) else 2):
+                atoms.append(("H", 0, 0, 0)); bonds.append((a, len(atoms) - 1, 1))
+        out.append((f"alkane{k}-13C-{i}-{j}", mol(atoms, bonds)))
+    return out
+
+
 def solvent_box(rng, n_waters=110):
     """more than a hundred fragments, among them refinement-equivalent but different ones"""
     bicyclopropyl = [(0, 1), (1, 2), (2, 0), (0, 3), (3, 4), (4, 5), (5, 3)]
